@@ -22,7 +22,7 @@ import (
 
 const (
 	fuel       = 3000
-	modelLimit = 1 << 22
+	modelLimit = 1 << 20
 )
 
 type env struct {
@@ -118,6 +118,27 @@ func hasNilExtObj(toks []string) bool {
 	return false
 }
 
+var emptyBodyTypes = func() map[string]bool {
+	m := map[string]bool{}
+	for _, r := range codecx.RegisteredTypes() {
+		if codecx.CanEncodeEmpty(r.Type) {
+			m[r.Name] = true
+		}
+	}
+	return m
+}()
+
+// hasEmptyBodyExtObj: an ExtensionObject whose decoded value is a registered struct that encodes to zero bytes
+// (its re-encoding has body length 0, which decodes to Value == nil: the defect C01.extobj-empty-body).
+func hasEmptyBodyExtObj(toks []string) bool {
+	for i, t := range toks {
+		if emptyBodyTypes[t] && i+1 < len(toks) && toks[i+1] == "p(" {
+			return true
+		}
+	}
+	return false
+}
+
 // onlyTimesDiffer: the two value texts differ, and only in DateTime tokens.
 func onlyTimesDiffer(a, b []string) bool {
 	if len(a) != len(b) {
@@ -145,6 +166,9 @@ func classify(v1 string, kind string, v2 string) string {
 	case "decode2", "differs":
 		if v2 != "" && onlyTimesDiffer(toks, strings.Fields(v2)) {
 			return "C03.datetime-range"
+		}
+		if hasEmptyBodyExtObj(toks) {
+			return "C03.extobj-empty-body"
 		}
 		for _, m := range variants(toks) {
 			if m[0]&0xc0 == 0x40 && m[0]&0x3f != 0 {
